@@ -12,7 +12,7 @@ import itertools
 SIG = {
     'f': 'ss', 'g': 'ss', 'h': 'sss',
     'w': 'ssss',
-    'var': 's', 'app': 'cc', 'lam': 'bc', 'k': 'ss', 'u': 'c', 'j': 'ss', 't3': 'sss', 's3': 'sss', 'm3': 'sss', 'at': 'sc', 'ta': 'cs', 'w4': 'ssss', 'v4': 'ssss',
+    'var': 's', 'app': 'cc', 'lam': 'bc', 'k': 'ss', 'u': 'c', 'j': 'ss', 't3': 'sss', 's3': 'sss', 'm3': 'sss', 'at': 'sc', 'ta': 'cs', 'w4': 'ssss', 'v4': 'ssss', 'lt': 'cbc',
     'mvar': 's', 'madd': 'cc', 'mmul': 'cc', 'msum': 'bc', 'mlet': 'bcc',
     'avar': 's', 'aadd': 'cc', 'amul': 'cc', 'alam': 'bc', 'num': 'p',        # 'p' = payload (a number, not a name)
 }
@@ -117,20 +117,21 @@ class Closure:
         g = self.U[c]
         if 'b' in sig:
             # open the binder with every pool name that is not free in the term: signature = frozenset of (z, class of opened body)
-            fn = set(free_names(g)); i = 1; binder = None; body = None
+            # elements in front of the binder are ordinary arguments; the children behind it are opened together
+            fn = set(free_names(g)); i = 1; binder = None; bodies = []; pre = []
             for kind in sig:
                 a = g[i]; i += 1
                 if kind == 'b': binder = a
-                elif kind == 'c': body = a
+                elif binder is None: pre.append(a if kind in 'sp' else self.find(canon(a)))
+                elif kind == 'c': bodies.append(a)
+                else: pre.append(('bound-arg', a))
             opened = []
             for z in self.pool:
                 if z in fn: continue
-                ob = rename(body, {binder: z}) if binder != z else body
-                # renaming the binder inside body: inner binders with the same name shadow it; all_names based rename would be wrong there
-                ob = _subst_free(body, binder, z)
-                cb = canon(ob)
-                if cb in self.parent: opened.append((z, self.find(cb)))
-            return ('lamsig', op, frozenset(opened))
+                # renaming the binder inside the bodies: inner binders with the same name shadow it
+                cbs = [canon(_subst_free(body, binder, z)) for body in bodies]
+                if all(cb in self.parent for cb in cbs): opened.append((z, tuple(self.find(cb) for cb in cbs)))
+            return ('lamsig', op, tuple(pre), frozenset(opened))
         out = [op]; i = 1
         for kind in sig:
             a = g[i]; i += 1
@@ -153,8 +154,8 @@ class Closure:
             for i in range(len(lams)):
                 for j in range(i + 1, len(lams)):
                     (c1, s1), (c2, s2) = lams[i], lams[j]
-                    if s1[1] != s2[1] or self.find(c1) == self.find(c2): continue
-                    if s1[2] & s2[2]:
+                    if s1[1] != s2[1] or s1[2] != s2[2] or self.find(c1) == self.find(c2): continue
+                    if s1[3] & s2[3]:
                         if self.union(c1, c2): changed = True
 
     # ---- queries on named terms (names 0..nnames-1)
@@ -374,7 +375,7 @@ def const_closure(terms, eqs, nnames, spare=3):
             C.constval, C.const_conflict = val, conflict
             return C
 
-WEIGHTS = {'AstSize': None, 'Depth': 'depth', 'Weighted': {'var': 1, 'app': 3, 'lam': 2, 'k': 5, 'u': 1, 'j': 4, 't3': 6, 's3': 7, 'm3': 9, 'at': 2, 'ta': 2, 'w4': 8, 'v4': 8}, 'WeightedF': {'f': 3, 'g': 2, 'h': 5, 'w': 7}}
+WEIGHTS = {'AstSize': None, 'Depth': 'depth', 'Weighted': {'var': 1, 'app': 3, 'lam': 2, 'k': 5, 'u': 1, 'j': 4, 't3': 6, 's3': 7, 'm3': 9, 'at': 2, 'ta': 2, 'w4': 8, 'v4': 8, 'lt': 2}, 'WeightedF': {'f': 3, 'g': 2, 'h': 5, 'w': 7}}
 def term_cost(t, cf):
     w = 1 if WEIGHTS[cf] is None else WEIGHTS[cf][t[0]]
     return w + sum(term_cost(a, cf) for kind, a in zip(SIG[t[0]], t[1:]) if kind == 'c')
